@@ -488,7 +488,7 @@ structure Defaults where
 
 /-- `prog : query NL?` on a token list -/
 def parseToks (dflt : Defaults) (today : Date) (toks : List Tok) : Except Err Query := do
-  let fuel := toks.length + 2
+  let fuel := 3 * toks.length + 4
   -- optional select
   let (sel, r0) : Option Select × List Tok ← match toks with
     | s :: sp :: rest =>
